@@ -184,7 +184,8 @@ Section Outline.
   Variable Wi : W -> Prop.            (* what is known about every world state of the run *)
   Variable Qp : LS -> list (mstep O W LS) -> Prop.
   Variable Rr : Res -> Prop.
-  Hypothesis q_begin : forall c, Qp (begin c) (prog c).
+  Variable Cok : Call -> Prop.        (* what is known about every call that is issued *)
+  Hypothesis q_begin : forall c, Cok c -> Qp (begin c) (prog c).
   Hypothesis q_acq : forall l rest, Qp l (Acq :: rest) -> Qp l rest.
   Hypothesis q_rel : forall l rest, Qp l (Rel :: rest) -> Qp l rest.
   Hypothesis q_step : forall f l rest o w l' o', P o -> Wi w -> Qp l (Step f :: rest) -> f l o w = (l', o') -> P o' /\ Qp l' rest.
@@ -192,7 +193,8 @@ Section Outline.
 
   Record OInv (s : mst) : Prop := {
     o_obj : P (obj s);
-    o_thr : forall t, In t (threads s) -> (pcl t <> [] -> Qp (ls t) (pcl t)) /\ Forall Rr (res t)
+    o_thr : forall t, In t (threads s) ->
+            (pcl t <> [] -> Qp (ls t) (pcl t)) /\ Forall Rr (res t) /\ Forall Cok (todo t)
   }.
 
   Lemma in_upd {A} (l : list A) i a x : In x (upd i a l) -> x = a \/ In x l.
@@ -203,12 +205,13 @@ Section Outline.
   Qed.
 
   Lemma finish_ok (t : thread O W LS Call Res) l rest :
-    Qp l rest -> Forall Rr (res t) ->
+    Qp l rest -> Forall Rr (res t) -> Forall Cok (todo t) ->
     let t' := finish O W LS Call Res ret t l rest in
-    (pcl t' <> [] -> Qp (ls t') (pcl t')) /\ Forall Rr (res t').
+    (pcl t' <> [] -> Qp (ls t') (pcl t')) /\ Forall Rr (res t') /\ Forall Cok (todo t').
   Proof.
-    intros Hq Hr. destruct rest as [|m rest]; cbn.
-    - split; [congruence|]. apply Forall_app. split; auto.
+    intros Hq Hr Hc. destruct rest as [|m rest]; cbn.
+    - split; [congruence|]. split; [apply Forall_app; split; auto|].
+      destruct (todo t); cbn; auto. inversion Hc; auto.
     - split; auto.
   Qed.
 
@@ -216,10 +219,10 @@ Section Outline.
   Proof.
     intros [Ho Ht] Hw Hs. unfold Machine.tstep in Hs.
     destruct (nth_error (threads s) i) as [t|] eqn:Hi; [|discriminate].
-    pose proof (Ht t (nth_error_In _ _ Hi)) as [Hq Hr].
+    pose proof (Ht t (nth_error_In _ _ Hi)) as (Hq & Hr & Hck).
     assert (Hcur : forall l p, cur_prog O W LS Call Res begin prog t = Some (l, p) -> Qp l p).
     { unfold cur_prog. intros l p. destruct (pcl t) eqn:Ep.
-      - destruct (todo t); [discriminate|]. intros H. injection H as <- <-. apply q_begin.
+      - destruct (todo t); [discriminate|]. intros H. injection H as <- <-. apply q_begin. inversion Hck; auto.
       - intros H. injection H as <- <-. apply Hq. discriminate. }
     destruct (cur_prog O W LS Call Res begin prog t) as [[l [|m rest]]|] eqn:Ec; [| |discriminate].
     - injection Hs as <-. split; cbn [obj threads]; auto.
@@ -254,10 +257,11 @@ Section Outline.
       intros p q Er. specialize (Hw (ch :: p) q). cbn in Hw. rewrite Es in Hw. apply Hw. now rewrite Er.
   Qed.
 
-  Lemma oinv_init ls0 o w calls : P o -> OInv (init O W LS Call Res ls0 o w calls).
+  Lemma oinv_init ls0 o w calls : P o -> Forall (Forall Cok) calls -> OInv (init O W LS Call Res ls0 o w calls).
   Proof.
-    intros Ho. split; cbn [obj threads Machine.init]; auto.
-    intros t Hin. apply in_map_iff in Hin. destruct Hin as (cs & <- & _). cbn. split; [congruence|constructor].
+    intros Ho Hc. split; cbn [obj threads Machine.init]; auto.
+    intros t Hin. apply in_map_iff in Hin. destruct Hin as (cs & <- & Hcs). cbn.
+    split; [congruence|]. split; [constructor|]. rewrite Forall_forall in Hc. auto.
   Qed.
 
   (* thread steps do not touch the world: it is the fold of the environment events so far *)
